@@ -5,14 +5,15 @@
    numpy select orthogonally (C06_index_tuple_selects_orthogonally: plain slices / one list, or the open mesh as
    soon as a list meets another list or an integer — numpy's "advanced indices that are not adjacent move to the
    front" rule is part of the numpy model and is exactly what the mesh conversion neutralises).  The behaviour
-   before the repair is refuted in Refuted/C06.v.  Tuple / bare-item keys are turned into dict keys by def_dict
-   (covered by the exhaustive correspondence and the refusal theorems).  Writes: frame, dims/size preservation
+   before the repair is refuted in Refuted/C06.v.  A bare item and a tuple of items from pairwise different dimensions are the dict keys with one single-item entry
+   per item (C06_bare_item_key_is_a_dict_key, C06_tuple_key_is_a_dict_key), so the theorems for dict keys apply to them;
+   tuples with several items of one dimension (list selections) are for writes only.  Writes: frame, dims/size preservation
    (C05) and refusals; the label-level statement for writes is decided per configuration by the exhaustive
    correspondence (all selector-kind assignments up to rank 3 / 4) and the oracle. *)
 From Coq Require Import List Arith.
 Import ListNotations.
 From Flodym Require Import Base.ND Base.Env Np.Einsum Np.Index Model.Dims Model.Array Model.SubArray
-  Proofs.ArrayLemmas Proofs.IndexProofs Proofs.OrthoIndex Proofs.HandlerProofs Proofs.GetitemSpec.
+  Proofs.ArrayLemmas Proofs.IndexProofs Proofs.OrthoIndex Proofs.HandlerProofs Proofs.GetitemSpec Proofs.KeyForms.
 
 Theorem C06_read_entries_are_the_addressed_source_entries :
   forall (R : Type) (rO : R) (a : nd R) sels p idx,
@@ -96,3 +97,18 @@ Proof.
       * constructor.
   - eexists. split; [vm_compute; reflexivity|]. split; vm_compute; reflexivity.
 Qed.
+
+(* bare items and tuples of items name the one dimension that holds each item *)
+Theorem C06_bare_item_key_is_a_dict_key :
+  forall (R : Type) (rO : R) (a : farr R) it d, NoDup (aletters R a) -> only_in (adims a) it d ->
+  getitem R rO a (KBare it) = getitem R rO a (KDict [(KLetter (dletter d), ISingle it)]).
+Proof. exact getitem_bare_is_dict. Qed.
+Print Assumptions C06_bare_item_key_is_a_dict_key.
+
+Theorem C06_tuple_key_is_a_dict_key :
+  forall (R : Type) (rO : R) (a : farr R) its dsel, NoDup (aletters R a) ->
+  Forall2 (only_in (adims a)) its dsel -> NoDup (letters dsel) ->
+  getitem R rO a (KTuple its)
+  = getitem R rO a (KDict (map (fun p => (KLetter (dletter (snd p)), ISingle (fst p))) (combine its dsel))).
+Proof. exact getitem_tuple_is_dict. Qed.
+Print Assumptions C06_tuple_key_is_a_dict_key.
